@@ -77,7 +77,7 @@ def setup_env():
         )
         import shutil
 
-        for old in olds[:-3]:
+        for old in olds[:-5]:
             shutil.rmtree(old, ignore_errors=True)
         os.makedirs(cache, exist_ok=True)
     try:
